@@ -935,6 +935,8 @@ struct Snap {
 	inflight: HashMap<ChannelId, Vec<u64>>,
 	blocked: HashMap<ChannelId, Vec<u64>>,
 	hold: HashMap<ChannelId, usize>,
+	/// the same four views at the moment `pre` was serialized
+	pre_view: (HashMap<ChannelId, u64>, HashMap<ChannelId, Vec<u64>>, HashMap<ChannelId, Vec<u64>>, HashMap<ChannelId, usize>),
 	events_at_step: Vec<(String, String)>,
 }
 
@@ -975,6 +977,7 @@ fn run_trial(line: &str) {
 	let recrash_mode: usize = param(&head, "recrash").and_then(|v| v.parse().ok()).unwrap_or(0);
 	let recrash = recrash_mode > 0;
 	let path_mode = param(&head, "path").unwrap_or("default").to_string();
+	let probe_progress = param(&head, "progress") != Some("0");
 	let evfail: Vec<String> = param(&head, "evfail").map(|v| v.split(',').filter(|x| !x.is_empty()).map(|x| x.to_string()).collect()).unwrap_or_default();
 	vh::set_reconstruct_manager_from_monitors(match path_mode.as_str() {
 		"legacy" => Some(false),
@@ -1036,7 +1039,7 @@ fn run_trial(line: &str) {
 		w.c.queues.clear();
 		let (l0, i0, k0, h0) = view_ids(&nodes[x], &ids, &w.c.chans[x]);
 		let b0 = nodes[x].node.encode();
-		snaps.push(Snap { pre: b0.clone(), post: b0, latest: l0, inflight: i0, blocked: k0, hold: h0, events_at_step: Vec::new() });
+		snaps.push(Snap { pre: b0.clone(), post: b0, latest: l0.clone(), inflight: i0.clone(), blocked: k0.clone(), hold: h0.clone(), pre_view: (l0.clone(), i0.clone(), k0, h0), events_at_step: Vec::new() });
 		for i in 1..=k {
 			step.store(i, Ordering::SeqCst);
 			w.c.step = i;
@@ -1052,10 +1055,13 @@ fn run_trial(line: &str) {
 				}
 			}
 			let pre_bytes = nodes[x].node.encode();
+			let pre_view = view_ids(&nodes[x], &ids, &w.c.chans[x]);
+			// (events handled by the op itself, e.g. `events n`, are gone from the pre-drain snapshot already)
+			let ev_before = ev_before.max(w.c.events.len());
 			w.drain();
 			let evs: Vec<(String, String)> = w.c.events[ev_before..].iter().filter(|(n, _, _)| *n == x).map(|(_, a, b)| (a.clone(), b.clone())).collect();
 			let (l, inf, blk, hld) = view_ids(&nodes[x], &ids, &w.c.chans[x]);
-			snaps.push(Snap { pre: pre_bytes, post: nodes[x].node.encode(), latest: l, inflight: inf, blocked: blk, hold: hld, events_at_step: evs });
+			snaps.push(Snap { pre: pre_bytes, post: nodes[x].node.encode(), latest: l, inflight: inf, blocked: blk, hold: hld, pre_view, events_at_step: evs });
 		}
 		carry = w.c.clone();
 	}
@@ -1074,10 +1080,11 @@ fn run_trial(line: &str) {
 	let j = k.saturating_sub(lag);
 	let use_pre = pre && lag == 0 && k > 0;
 	let mgr_bytes: Vec<u8> = if use_pre { snaps[k].pre.clone() } else { snaps[j].post.clone() };
-	let snap_latest = snaps[j].latest.clone();
-	let snap_inflight = snaps[j].inflight.clone();
-	let snap_blocked = snaps[j].blocked.clone();
-	let snap_hold = snaps[j].hold.clone();
+	let (snap_latest, snap_inflight, snap_blocked, snap_hold) = if use_pre {
+		snaps[k].pre_view.clone()
+	} else {
+		(snaps[j].latest.clone(), snaps[j].inflight.clone(), snaps[j].blocked.clone(), snaps[j].hold.clone())
+	};
 	let expect_events: Vec<(String, String)> = if use_pre { snaps[k].events_at_step.clone() } else { Vec::new() };
 	let mut mon_bytes: Vec<Vec<u8>> = Vec::new();
 	let mut mon_ids: HashMap<ChannelId, u64> = HashMap::new();
@@ -1230,6 +1237,83 @@ fn run_trial(line: &str) {
 			let mut deferred = Vec::new();
 			w.onchain(&mut spent, &mut deferred);
 		}
+		// ---- progress probe: every channel of the restarted node that is still open must still carry payments in
+		// both directions (a channel left frozen, e.g. with MONITOR_UPDATE_IN_PROGRESS set and nothing in flight,
+		// would keep new HTLCs in its holding cell for ever)
+		phase("progress");
+		let mut probes: Vec<String> = Vec::new();
+		if probe_progress {
+			for (chan, peer) in w.c.chans[x].clone() {
+				let usable = |n: usize| nodes[n].node.list_channels().iter().any(|d| d.channel_id == chan && d.is_usable);
+				if !usable(x) || !usable(peer) {
+					continue;
+				}
+				// stage 1: the restarted node pays its peer, nothing else happens on the channel
+				let idx = w.c.pay_order.len();
+				if !(w.send(x, peer, 1_100_000 + 1000 * idx as u64) && w.c.pay_order.len() == idx + 1) {
+					continue;
+				}
+				let hash = w.c.pay_order[idx];
+				let tag = format!("p{}", idx);
+				w.drain();
+				w.settle();
+				let done = |w: &World, tag: &str| w.c.events.iter().any(|(n, name, d)| *n == x && name == "PaymentSent" && d == tag);
+				let mut stage = if done(&w, &tag) { "alone" } else { "" };
+				let mip_after_alone = vh::monupd_view(nodes[x].node, &ids[peer], &chan).and_then(|v| v.0).map(|v| v.monitor_update_in_progress).unwrap_or(false);
+				// stage 2: timer ticks
+				if stage.is_empty() {
+					nodes[x].node.timer_tick_occurred();
+					nodes[x].node.timer_tick_occurred();
+					w.drain();
+					w.settle();
+					if done(&w, &tag) {
+						stage = "tick";
+					}
+				}
+				// stage 3: a disconnection and reconnection
+				if stage.is_empty() {
+					let (lo, hi) = (x.min(peer), x.max(peer));
+					w.apply(&["disc", &lo.to_string(), &hi.to_string()]);
+					w.drain();
+					w.settle();
+					if done(&w, &tag) {
+						stage = "reconnect";
+					}
+				}
+				// stage 4: traffic from the peer
+				let idx2 = w.c.pay_order.len();
+				let sent2 = w.send(peer, x, 1_100_000 + 1000 * idx2 as u64) && w.c.pay_order.len() == idx2 + 1;
+				w.drain();
+				w.settle();
+				if stage.is_empty() && done(&w, &tag) {
+					stage = "peer_traffic";
+				}
+				let _ = hash;
+				probes.push(format!(
+					"{{\"tag\":{},\"from\":{},\"to\":{},\"chan\":{},\"completed_by\":{},\"mip_after_alone\":{}}}",
+					js(&tag), x, peer, js(&cid(&chan)), js(if stage.is_empty() { "never" } else { stage }), mip_after_alone
+				));
+				if sent2 {
+					let tag2 = format!("p{}", idx2);
+					let ok2 = w.c.events.iter().any(|(n, name, d)| *n == peer && name == "PaymentSent" && *d == tag2);
+					probes.push(format!(
+						"{{\"tag\":{},\"from\":{},\"to\":{},\"chan\":{},\"completed_by\":{},\"mip_after_alone\":false}}",
+						js(&tag2), peer, x, js(&cid(&chan)), js(if ok2 { "alone" } else { "never" })
+					));
+				}
+			}
+		}
+		let final_view: Vec<String> = w.c.chans[x]
+			.iter()
+			.filter_map(|(c, peer)| match vh::monupd_view(nodes[x].node, &ids[*peer], c) {
+				Some((Some(v), infl, _)) => Some(format!(
+					"{{\"chan\":{},\"mip\":{},\"hold\":{},\"blocked\":{},\"inflight\":{}}}",
+					js(&cid(c)), v.monitor_update_in_progress, v.holding_cell_htlc_updates, v.blocked_update_ids.len(), infl.len()
+				)),
+				_ => None,
+			})
+			.collect();
+		partial(format!(",\"probes\":{},\"final_view\":{}", jarr(&probes), jarr(&final_view)));
 		phase("summary");
 		closed = w.c.closed.clone();
 		events = w.c.events[prefix_events..].to_vec();
